@@ -879,6 +879,15 @@ func (ev *Env) coerce(v SVal, tyName string, fn string) SVal {
 	return nil
 }
 
+// stableEntryHeaps: set while verifying a function whose frame is "assigns nothing"
+var stableEntryHeaps bool
+
+// isEntryParamSlice: the slice header is a parameter of the function under verification
+// (parameters are named <name>.reg; values created later carry a !n suffix)
+func isEntryParamSlice(x SSlice) bool {
+	return x.Reg != nil && x.Reg.Op == "var" && strings.HasSuffix(x.Reg.Name, ".reg") && !strings.Contains(x.Reg.Name, "!")
+}
+
 // flatten a spec value into SMT arguments
 func flatten(v SVal) []*Term {
 	switch x := v.(type) {
@@ -896,6 +905,19 @@ func flatten(v SVal) []*Term {
 		e := x.Ty.Elem
 		if e.K == TSlice && e.Elem.scalarSort() != nil {
 			st := x.st
+			if stableEntryHeaps && isEntryParamSlice(x) {
+				// a nested-slice parameter of a function with frame "assigns nothing": the element
+				// headers and contents that existed at entry are never changed, so the entry heaps
+				// stand for the current ones (keeps f(subs) one term across allocations and stores
+				// to fresh memory)
+				return []*Term{
+					Select(initialHeapVar(heapKey(e, "reg"), RegSort, false), Mark(x.Reg, "reg")),
+					Select(initialHeapVar(heapKey(e, "off"), IdxSort, false), Mark(x.Reg, "reg")),
+					Select(initialHeapVar(heapKey(e, "len"), IdxSort, false), Mark(x.Reg, "reg")),
+					x.Off, x.Len,
+					initialHeapVar(heapKey(e.Elem, ""), e.Elem.scalarSort(), false),
+				}
+			}
 			return []*Term{
 				Select(st.heap(heapKey(e, "reg"), RegSort), Mark(x.Reg, "reg")),
 				Select(st.heap(heapKey(e, "off"), IdxSort), Mark(x.Reg, "reg")),
